@@ -449,6 +449,8 @@ def _leads_to_err_only(fn, start, arm, join=None):
         t = fn.blocks[b].term
         if t.k == "call" and t.dest is not None and t.dest.is_local() and t.dest.local == 0 and "from_residual" not in (t.callee or ""):
             return False
+        if t.k == "call" and t.dest is not None and t.dest.is_local() and t.dest.local == 0 and t.j.get("callee_name") == "from_residual":
+            has_err = True          # `helper()?` hands the helper's Err on: the failure variant is what is returned
     if join is not None and join in reg:
         return False
     # the region must not contain the dispatch head again (no way back into the loop)
